@@ -158,3 +158,28 @@ def tr_output(run):
             tsv.append("%s\t%s" % (k, enc))
     open(os.path.join(run.scratch, "consts_output.tsv"), "w").write("\n".join(tsv) + "\n")
     return v
+
+
+def tr_errors(run):
+    """T1 for the error records (C04): the text message.c hands to the error handler on a refused append, and the shape of
+    error.c (return when error logging is off; logging switched off around ONE dispatch of the raw error text; switched on again)."""
+    msg = strip_comments(run.src("src/message.c"))
+    ab = func_body(msg, "snoopy_message_append") or ""
+    m = re.search(r"if\s*\(\s*SNOOPY_ERROR\s*==\s*snoopy_util_string_append\s*\(\s*logMessage\s*,\s*logMessageBufSize\s*,\s*appendThis\s*\)\s*\)\s*\{\s*"
+                  r"snoopy_error_handler\s*\(\s*" + STR + r"\s*\)\s*;\s*\}\s*$", ab.strip())
+    text = c_unescape(m.group(1)) if m else b""
+    if not m:
+        run.notes.append("translator: message.c snoopy_message_append not recognised")
+    eb = func_body(strip_comments(run.src("src/error.c")), "snoopy_error_handler") or ""
+    guard = bool(re.search(r"if\s*\(\s*SNOOPY_TRUE\s*!=\s*CFG->error_logging_enabled\s*\)\s*\{\s*return\s*;\s*\}", eb))
+    disp = re.findall(r"snoopy_action_log_message_dispatch\s*\(\s*(\w+)\s*\)", eb)
+    wrapped = bool(re.search(r"CFG->error_logging_enabled\s*=\s*SNOOPY_FALSE\s*;\s*snoopy_action_log_message_dispatch\s*\(\s*errorMsg\s*\)\s*;\s*"
+                             r"CFG->error_logging_enabled\s*=\s*SNOOPY_TRUE\s*;", eb))
+    ok = guard and wrapped and disp == ["errorMsg"] and not re.search(r"\b(while|for|do|goto)\b", eb)
+    if not ok:
+        run.notes.append("translator: error.c handler shape not recognised (guard=%s wrapped=%s dispatches=%s)" % (guard, wrapped, disp))
+    run.write_gen("Gen_Errors.v", "(* GENERATED from the current /repo working tree by vlib/tr_output.py -- do not edit *)\n"
+                  "From Snoopy Require Import Lib.CStr.\n"
+                  "Definition err_append_text : list byte := %s.\nDefinition err_handler_ok : bool := %s.\n" % (coq_bytes(text), cb(ok)))
+    run.consts["errors"] = {"err_append_text": text.hex(), "err_handler_ok": ok}
+    return run.consts["errors"]
